@@ -390,6 +390,10 @@ class Engine:
             finally:
                 self.spec_mode -= 1
             self.assumptions.add("assumed in %s: %s" % (contract.qualname, cl if isinstance(cl, str) else getattr(cl, "__name__", "clause")))
+        if contract.extra.get("yields") is not None:
+            # a generator: the sequence of values yielded so far is the ghost list __yielded__
+            ys = contract.extra["yields"]
+            st.env["__yielded__"] = VList(ys, z3.K(z3.IntSort(), to_z3(ys.fresh("dflt"), ys)), z3.IntVal(0))
         for cls in self.reg.classes:
             st.alloc["pre:" + cls] = self.alloc_bound(st, cls)
         pre.pc = list(st.pc)
